@@ -136,7 +136,7 @@ def oneCall (k : Nat) (h : Heap) (ws : List String) : Except String Heap := do
       match f.srid with
       | some (a, b) =>
         if e.isConstructive && firstGeomIsSingle e && a != b then
-          bad (if e.sridFromFirst then s!"srid-not-propagated:{a}:{b}" else s!"srid-not-propagated-unlisted:{a}:{b}")
+          bad s!"srid-not-propagated:{a}:{b}"
         else .ok h'
       | none => .ok h'
 
